@@ -87,15 +87,24 @@ func run(t *rapid.T) {
 		}
 	}
 	nclients := rapid.IntRange(2, maxClients).Draw(t, "nclients")
-	for c := 0; c < nclients; c++ {
-		n := rapid.IntRange(1, maxOps).Draw(t, "nops")
-		var prog []fam.OpDesc
-		for i := 0; i < n; i++ {
-			d := fam.DrawSibling(t, prev)
-			prev = &d
-			prog = append(prog, d)
+	stormOdds := 5
+	if w.Huge {
+		stormOdds = 1
+	}
+	if nclients > 1 && rapid.IntRange(0, stormOdds).Draw(t, "storm") == 0 {
+		tr.Programs = fam.DrawStorm(t, nclients)
+		core.Probe("storm-programs")
+	} else {
+		for c := 0; c < nclients; c++ {
+			n := rapid.IntRange(1, maxOps).Draw(t, "nops")
+			var prog []fam.OpDesc
+			for i := 0; i < n; i++ {
+				d := fam.DrawSibling(t, prev)
+				prev = &d
+				prog = append(prog, d)
+			}
+			tr.Programs = append(tr.Programs, prog)
 		}
-		tr.Programs = append(tr.Programs, prog)
 	}
 
 	// every client gets a private view of the family (the shared members plus
